@@ -64,9 +64,36 @@ enum Ins {
     LdpPost(usize, usize, usize, i64),
     StpPre(usize, usize, usize, i64),
     Cmp(usize, RI),
+    /// CBZ (true) / CBNZ (false)
+    Cbz(bool, usize, String),
+    /// AND / ORR / EOR (register or immediate second operand), TST sets flags only
+    Logic(u8, usize, usize, RI),
+    Tst(usize, RI),
+    /// LSL / LSR / ASR by an immediate
+    Shift(u8, usize, usize, i64),
+    Neg(usize, usize),
+    Madd(usize, usize, usize, usize),
+    MovImm(usize, i64),
+    /// CSEL d, n, m, cc / CSET d, cc
+    Csel(usize, usize, usize, Cc),
+    Cset(usize, Cc),
+    /// plain (signed-offset) pair forms: LDP/STP t1, t2, [n, imm]
+    LdpOff(usize, usize, usize, i64),
+    StpOff(usize, usize, usize, i64),
     Bcc(Cc, String),
     Ret,
     Marker(Marker),
+}
+
+fn cond(cc: Cc, f: Flags) -> bool {
+    match cc {
+        Cc::Eq => f.z,
+        Cc::Ne => !f.z,
+        Cc::Lt => f.n != f.v,
+        Cc::Le => f.z || f.n != f.v,
+        Cc::Gt => !f.z && f.n == f.v,
+        Cc::Ge => f.n == f.v,
+    }
 }
 
 pub struct Program {
@@ -141,7 +168,55 @@ pub fn parse(text: &str) -> Result<Program, Fault> {
             "BR" => r(0).map(Ins::Br),
             "BL" => Some(Ins::Bl(rest.to_string())),
             "ADR" => Some(Ins::Adr(r(0).ok_or_else(bad)?, ops.get(1).ok_or_else(bad)?.clone())),
-            "MOV" => Some(Ins::Mov(r(0).ok_or_else(bad)?, r(1).ok_or_else(bad)?)),
+            "MOV" => match (r(0), r(1), ops.get(1).and_then(|s| int(s.trim_start_matches('#')))) {
+                (Some(d), Some(s), _) => Some(Ins::Mov(d, s)),
+                (Some(d), None, Some(i)) => Some(Ins::MovImm(d, i)),
+                _ => None,
+            },
+            "CBZ" | "CBNZ" => Some(Ins::Cbz(mn == "CBZ", r(0).ok_or_else(bad)?, ops.get(1).ok_or_else(bad)?.clone())),
+            "AND" | "ORR" | "EOR" => {
+                let k = match mn {
+                    "AND" => 0,
+                    "ORR" => 1,
+                    _ => 2,
+                };
+                Some(Ins::Logic(k, r(0).ok_or_else(bad)?, r(1).ok_or_else(bad)?, ops.get(2).and_then(|s| ri(s.trim_start_matches('#'))).ok_or_else(bad)?))
+            }
+            "TST" => Some(Ins::Tst(r(0).ok_or_else(bad)?, ops.get(1).and_then(|s| ri(s.trim_start_matches('#'))).ok_or_else(bad)?)),
+            "LSL" | "LSR" | "ASR" => {
+                let k = match mn {
+                    "LSL" => 0,
+                    "LSR" => 1,
+                    _ => 2,
+                };
+                let n = ops.get(2).and_then(|s| int(s.trim_start_matches('#'))).filter(|n| (0..64).contains(n)).ok_or_else(bad)?;
+                Some(Ins::Shift(k, r(0).ok_or_else(bad)?, r(1).ok_or_else(bad)?, n))
+            }
+            "NEG" => Some(Ins::Neg(r(0).ok_or_else(bad)?, r(1).ok_or_else(bad)?)),
+            "MADD" => Some(Ins::Madd(r(0).ok_or_else(bad)?, r(1).ok_or_else(bad)?, r(2).ok_or_else(bad)?, r(3).ok_or_else(bad)?)),
+            "CSEL" | "CSET" => {
+                let cc = |s: &str| match s.trim() {
+                    "EQ" => Some(Cc::Eq),
+                    "NE" => Some(Cc::Ne),
+                    "LT" => Some(Cc::Lt),
+                    "LE" => Some(Cc::Le),
+                    "GT" => Some(Cc::Gt),
+                    "GE" => Some(Cc::Ge),
+                    _ => None,
+                };
+                if mn == "CSEL" {
+                    Some(Ins::Csel(r(0).ok_or_else(bad)?, r(1).ok_or_else(bad)?, r(2).ok_or_else(bad)?, ops.get(3).and_then(|s| cc(s)).ok_or_else(bad)?))
+                } else {
+                    Some(Ins::Cset(r(0).ok_or_else(bad)?, ops.get(1).and_then(|s| cc(s)).ok_or_else(bad)?))
+                }
+            }
+            "NOP" => Some(Ins::Mov(XZR, XZR)),
+            "B.EQ" => Some(Ins::Bcc(Cc::Eq, rest.to_string())),
+            "B.NE" => Some(Ins::Bcc(Cc::Ne, rest.to_string())),
+            "B.LT" => Some(Ins::Bcc(Cc::Lt, rest.to_string())),
+            "B.LE" => Some(Ins::Bcc(Cc::Le, rest.to_string())),
+            "B.GT" => Some(Ins::Bcc(Cc::Gt, rest.to_string())),
+            "B.GE" => Some(Ins::Bcc(Cc::Ge, rest.to_string())),
             "MOVZ" | "MOVN" | "MOVK" => {
                 let d = r(0).ok_or_else(bad)?;
                 let imm = ops.get(1).and_then(|s| int(s)).ok_or_else(bad)?;
@@ -159,8 +234,13 @@ pub fn parse(text: &str) -> Result<Program, Fault> {
                 Some(if mn == "LDR" { Ins::Ldr(t, n, off) } else { Ins::Str(t, n, off) })
             }
             "LDP" => {
-                // LDP X1, X2, [ SP ], imm
+                // LDP X1, X2, [ SP ], imm   (post-index)   or   LDP X1, X2, [ SP, imm ]   (signed offset)
                 if !rest.contains("],") && !rest.contains("] ,") {
+                    if rest.ends_with(']') {
+                        let off = ops.get(3).and_then(|s| int(s)).unwrap_or(0);
+                        ins.push(Ins::LdpOff(r(0).ok_or_else(bad)?, r(1).ok_or_else(bad)?, r(2).ok_or_else(bad)?, off));
+                        continue;
+                    }
                     return Err(bad());
                 }
                 Some(Ins::LdpPost(
@@ -171,8 +251,13 @@ pub fn parse(text: &str) -> Result<Program, Fault> {
                 ))
             }
             "STP" => {
-                // STP X1, X2, [ SP, imm ]!
+                // STP X1, X2, [ SP, imm ]!   (pre-index)   or   STP X1, X2, [ SP, imm ]   (signed offset)
                 if !rest.ends_with("]!") {
+                    if rest.ends_with(']') {
+                        let off = ops.get(3).and_then(|s| int(s)).unwrap_or(0);
+                        ins.push(Ins::StpOff(r(0).ok_or_else(bad)?, r(1).ok_or_else(bad)?, r(2).ok_or_else(bad)?, off));
+                        continue;
+                    }
                     return Err(bad());
                 }
                 Some(Ins::StpPre(
@@ -480,6 +565,68 @@ impl<'p> Emu<'p> {
                         let y = self.need_ri(m, "CMP")? as i64;
                         let (r, v) = x.overflowing_sub(y);
                         self.flags = Some(Flags { z: r == 0, n: r < 0, v });
+                    }
+                    Ins::Cbz(zero, r, l) => {
+                        let v = self.need(r, "CBZ/CBNZ")?;
+                        if (v == 0) == zero {
+                            next = self.target(&l)?;
+                        }
+                    }
+                    Ins::Logic(k, d, n, m) => {
+                        let a = self.need(n, "logic")?;
+                        let b = self.need_ri(m, "logic")?;
+                        self.set(d, Word::Def(match k {
+                            0 => a & b,
+                            1 => a | b,
+                            _ => a ^ b,
+                        }));
+                    }
+                    Ins::Tst(n, m) => {
+                        let r = (self.need(n, "TST")? & self.need_ri(m, "TST")?) as i64;
+                        self.flags = Some(Flags { z: r == 0, n: r < 0, v: false });
+                    }
+                    Ins::Shift(k, d, n, sh) => {
+                        let a = self.need(n, "shift")?;
+                        self.set(d, Word::Def(match k {
+                            0 => a << sh,
+                            1 => a >> sh,
+                            _ => ((a as i64) >> sh) as u64,
+                        }));
+                    }
+                    Ins::Neg(d, n) => {
+                        let a = self.need(n, "NEG")?;
+                        self.set(d, Word::Def(0u64.wrapping_sub(a)));
+                    }
+                    Ins::Madd(d, n, m, a) => {
+                        let x = self.need(n, "MADD")?;
+                        let y = self.need(m, "MADD")?;
+                        let z = self.need(a, "MADD")?;
+                        self.set(d, Word::Def(z.wrapping_add(x.wrapping_mul(y))));
+                    }
+                    Ins::MovImm(d, i) => self.set(d, Word::Def(i as u64)),
+                    Ins::Csel(d, n, m, cc) => {
+                        let f = self.flags.ok_or_else(|| Fault::UndefUse("conditional select on undefined flags".into()))?;
+                        let w = if cond(cc, f) { self.get(n) } else { self.get(m) };
+                        self.set(d, w);
+                    }
+                    Ins::Cset(d, cc) => {
+                        let f = self.flags.ok_or_else(|| Fault::UndefUse("conditional set on undefined flags".into()))?;
+                        self.set(d, Word::Def(cond(cc, f) as u64));
+                    }
+                    Ins::LdpOff(t1, t2, n, off) => {
+                        let a = self.mem_addr(n, off, "LDP")?;
+                        let sp = self.sp()?;
+                        let w1 = self.mem.load(a, sp, "LDP")?;
+                        let w2 = self.mem.load(a.wrapping_add(8), sp, "LDP")?;
+                        self.set(t1, w1);
+                        self.set(t2, w2);
+                    }
+                    Ins::StpOff(t1, t2, n, off) => {
+                        let a = self.mem_addr(n, off, "STP")?;
+                        let sp = self.sp()?;
+                        let (w1, w2) = (self.get(t1), self.get(t2));
+                        self.mem.store(a, w1, sp, "STP")?;
+                        self.mem.store(a.wrapping_add(8), w2, sp, "STP")?;
                     }
                     Ins::Bcc(cc, l) => {
                         let f = self.flags.ok_or_else(|| Fault::UndefUse("conditional branch on undefined flags".into()))?;
